@@ -10,9 +10,17 @@ from astutil import where, callee_name, strip
 BRACKET = 0x5d
 
 
-def string_arg(n):
+def string_arg(n, tu=None):
     n = strip(n)
     while n.get('kind') in ('ImplicitCastExpr', 'CStyleCastExpr', 'ParenExpr'): n = n['inner'][0]
+    if n.get('kind') == 'DeclRefExpr' and tu is not None and n['referencedDecl'].get('kind') == 'VarDecl':
+        # a file-scope `static const char name[] = "..."`
+        d = tu.globals.get(n['referencedDecl']['name'])
+        if d is not None and d.get('type', {}).get('qualType', '').startswith('const char'):
+            ini = [c for c in d.get('inner', []) if 'Comment' not in c.get('kind', '')]
+            if ini:
+                n = strip(ini[0])
+                while n.get('kind') in ('ImplicitCastExpr', 'CStyleCastExpr', 'ParenExpr'): n = n['inner'][0]
     if n.get('kind') != 'StringLiteral': return None
     import tables
     return tables.c_unescape(n['value'])
@@ -66,7 +74,7 @@ class IPMachine(scanex.ScannerMachine):
         name = callee_name(n)
         args = n['inner'][1:]
         if name == 'strspn':
-            p = self.ev(args[0]); lit = string_arg(args[1])
+            p = self.ev(args[0]); lit = string_arg(args[1], self.tu)
             if lit is None: raise Unsupported('strspn with a non-literal set')
             members = frozenset(ord(c) for c in lit)
             if isinstance(p, Ptr) and p.base == 'start' and p.off == 0 and not self.at_start_known_cursor():
